@@ -1,4 +1,5 @@
 import CollectionsC.Proofs.PQueue
+import CollectionsC.Proofs.PQueueSafe
 /-! # C10 — CC_PQueue always yields a maximal element and conserves its contents
 
 Statements only (helpers in `Proofs/PQueue.lean`).  The concrete model `CC.PQueue`
@@ -12,7 +13,10 @@ Quantifiers: every comparator `cmp` that is a total preorder (`Spec.TotalPreorde
 ties between distinguishable elements included), every element value, every capacity ≥ 1 the
 constructor accepts, **every** growth law `grow : ℕ → ℕ` (the driver instantiates
 `grow c = (size_t)((float)c * exp_factor)`; no assumption on it is needed: a result that is too
-small falls back to `capacity + 1`, one that is too large is answered with `CC_ERR_MAX_CAPACITY`),
+small falls back to `capacity + 1`, one that is too large is answered with `CC_ERR_MAX_CAPACITY`;
+in C the cast `(size_t)(capacity * exp_factor)` is undefined behaviour when the float product is
+≥ 2^64 — `grow` is a total function, so the theorems cover such factors with *some* value of the
+cast, which is what every compiler we know produces, but the C standard does not promise it),
 every interleaving of push/top/pop, every allocator schedule, both allocator triples.
 
 Documented preconditions: `TotalPreorder cmp` (the comparator contract) and ledger consistency: the
@@ -193,6 +197,83 @@ return every held element exactly once, in non-increasing priority order -/
 theorem drain_sorted {cmp : Nat → Nat → Int} (tp : TotalPreorder cmp) (q : PQueue) (h : PQueue.Inv' cmp q) :
     (PQueue.drain cmp q.size q).Perm q.abs ∧ (PQueue.drain cmp q.size q).Pairwise (fun a b => 0 ≤ cmp a b) :=
   PQueue.drain_spec tp q.size q h (Nat.le_refl _)
+
+/-- **Memory safety does not depend on the comparator.** For *every* `cmp` — not a total preorder,
+not transitive, constant, anything — and every history, from the structural part of the invariant
+alone (`size ≤ capacity = buffer length ≤ CC_MAX_ELEMENTS / sizeof(void*)`): no operation reads or
+writes a slot outside the buffer (`fault` unchanged: the bounds tests of the sift-up loop and of
+`heapify`, which reads children only below `size`), the shape is kept and the ledger of the queue's
+triple stays balanced.  A broken comparator can destroy heap order, never memory. -/
+theorem history_safe (cmp : Nat → Nat → Int) (grow : Nat → Nat) (ops : List Op) (q : PQueue) (m : Mem)
+    (h : PQueue.Shape q) (hl : 2 ≤ m.liveT q.triple) :
+    PQueue.Shape (PQueue.run cmp grow q ops m).2.1 ∧ (PQueue.run cmp grow q ops m).2.2.fault = m.fault ∧
+    (PQueue.run cmp grow q ops m).2.2.liveT q.triple = m.liveT q.triple :=
+  PQueue.run_safe cmp grow ops q m h (by omega)
+
+/-- … from the constructor, for every comparator, capacity, growth law, schedule and triple -/
+theorem new_history_safe (cmp : Nat → Nat → Int) (grow : Nat → Nat) (cap : Nat) (exGe : Nat → Bool) (t : Triple)
+    (m0 : Mem) (q0 : PQueue) (hnew : (PQueue.new cap exGe t m0).2.1 = some q0) (ops : List Op) :
+    (PQueue.run cmp grow q0 ops (PQueue.new cap exGe t m0).2.2).2.2.fault = m0.fault ∧
+    PQueue.Shape (PQueue.run cmp grow q0 ops (PQueue.new cap exGe t m0).2.2).2.1 := by
+  rcases PQueue.new_spec (keyCmp id) cap exGe t m0 with ⟨_, e, _⟩ | ⟨_, e, _⟩ | ⟨q, _, e, hinv, _, _, htr, hlive, hfault, _⟩
+  · rw [e] at hnew; cases hnew
+  · rw [e] at hnew; cases hnew
+  · rw [e] at hnew
+    have hq : q = q0 := Option.some.inj hnew
+    subst hq
+    have := history_safe cmp grow ops q (PQueue.new cap exGe t m0).2.2 (PQueue.inv_shape _ q hinv) (by rw [htr]; omega)
+    exact ⟨by rw [this.2.1, hfault], this.1⟩
+
+/-- **Multiset = pushes − pops, for every history from the constructor** (hence for every prefix of
+a history): what the queue holds plus what the pops returned is, as a multiset, what was pushed
+successfully -/
+theorem new_history_conservation {cmp : Nat → Nat → Int} (tp : TotalPreorder cmp) (grow : Nat → Nat)
+    (cap : Nat) (exGe : Nat → Bool) (t : Triple) (m0 : Mem) (q0 : PQueue)
+    (hnew : (PQueue.new cap exGe t m0).2.1 = some q0) (ops : List Op) :
+    let r := PQueue.run cmp grow q0 ops (PQueue.new cap exGe t m0).2.2
+    (r.2.1.abs ++ popped ops r.1).Perm (pushed ops r.1) := by
+  intro r
+  have hh := new_history_refines tp grow cap exGe t m0 q0 hnew ops
+  simpa using Spec.PQFacts.conservation ops [] r.1 r.2.1.abs hh.1
+
+/-- **Pop until empty, on `PQueue.run`**: from any state satisfying the invariant, the history of
+`size` pops (on the real, threaded ledger) succeeds every time, returns every held element exactly
+once in non-increasing priority order, and leaves the queue empty -/
+theorem pop_until_empty {cmp : Nat → Nat → Int} (tp : TotalPreorder cmp) (grow : Nat → Nat)
+    (q : PQueue) (m : Mem) (h : PQueue.Inv' cmp q) (hl : 2 ≤ m.liveT q.triple) :
+    let r := PQueue.run cmp grow q (List.replicate q.size .pop) m
+    (r.1.all fun o => o.st == .ok) = true ∧ (r.1.filterMap (·.val)).Perm q.abs ∧
+    (r.1.filterMap (·.val)).Pairwise (fun a b => 0 ≤ cmp a b) ∧ r.2.1.abs = [] := by
+  intro r
+  have hh := history_refines tp grow (List.replicate q.size .pop) q m h hl
+  have hlen : q.abs.length = q.size := by simp [PQueue.abs]
+  have := Spec.PQFacts.pop_all_sorted q.size q.abs hlen r.1 r.2.1.abs hh.1
+  exact ⟨this.2.1, this.2.2.1, this.2.2.2, this.1⟩
+
+/-- … and after any history from the constructor: push/pop in any interleaving, then `size` pops on
+the same run return, in non-increasing order, exactly what is still held -/
+theorem new_history_pop_until_empty {cmp : Nat → Nat → Int} (tp : TotalPreorder cmp) (grow : Nat → Nat)
+    (cap : Nat) (exGe : Nat → Bool) (t : Triple) (m0 : Mem) (q0 : PQueue)
+    (hnew : (PQueue.new cap exGe t m0).2.1 = some q0) (ops : List Op) :
+    let r := PQueue.run cmp grow q0 ops (PQueue.new cap exGe t m0).2.2
+    let d := PQueue.run cmp grow r.2.1 (List.replicate r.2.1.size .pop) r.2.2
+    (d.1.all fun o => o.st == .ok) = true ∧ (d.1.filterMap (·.val) ++ popped ops r.1).Perm (pushed ops r.1) ∧
+    (d.1.filterMap (·.val)).Pairwise (fun a b => 0 ≤ cmp a b) ∧ d.2.1.abs = [] := by
+  intro r d
+  rcases PQueue.new_spec cmp cap exGe t m0 with ⟨_, e, _⟩ | ⟨_, e, _⟩ | ⟨q, _, e, hinv, habs, _, htr, hlive, _⟩
+  · rw [e] at hnew; cases hnew
+  · rw [e] at hnew; cases hnew
+  · rw [e] at hnew
+    have hq : q = q0 := Option.some.inj hnew
+    subst hq
+    have hh := history_refines tp grow ops q (PQueue.new cap exGe t m0).2.2 hinv (by rw [htr]; omega)
+    have hl : 2 ≤ r.2.2.liveT r.2.1.triple := by
+      show 2 ≤ (PQueue.run cmp grow q ops (PQueue.new cap exGe t m0).2.2).2.2.liveT
+        (PQueue.run cmp grow q ops (PQueue.new cap exGe t m0).2.2).2.1.triple
+      rw [hh.2.2.1, hh.2.2.2.1, htr]; omega
+    have hp := pop_until_empty tp grow r.2.1 r.2.2 hh.2.1 hl
+    have hc := new_history_conservation tp grow cap exGe t m0 q e ops
+    exact ⟨hp.1, (List.Perm.append_right _ hp.2.1).trans hc, hp.2.2.1, hp.2.2.2⟩
 
 /-- **End to end**: construct a queue, run *any* history, then pop until empty: the elements that come
 out are in non-increasing priority order and, together with the elements the history's own pops
